@@ -14,8 +14,10 @@ def dispatch (line : String) : String :=
     else if cmd = "win" then winLine toks
     else if cmd = "snd" then sndLine toks
     else if cmd = "rcv" then rcvLine toks
+    else if cmd = "dupwrq" then dupwrqLine toks
     else if cmd = "req" then reqLine toks
     else if cmd = "storm" then stormLine toks
+    else if cmd = "multi" then multiLine toks
     else if cmd = "cfg" then cfgLine toks
     else if cmd = "loop" then loopLine toks
     else "bad-op"
